@@ -313,3 +313,18 @@ func Args() (repo, out string) {
 	}
 	return *r, *o
 }
+
+// WriteIfChanged writes a complete generated file when its content changed.
+func WriteIfChanged(outDir, name string, content []byte) {
+	path := filepath.Join(outDir, name+".v")
+	old, _ := os.ReadFile(path)
+	if !bytes.Equal(old, content) {
+		if err := os.MkdirAll(outDir, 0o755); err != nil {
+			panic(err)
+		}
+		if err := os.WriteFile(path, content, 0o644); err != nil {
+			panic(err)
+		}
+		fmt.Printf("translator: wrote %s\n", path)
+	}
+}
